@@ -301,21 +301,19 @@ func checkToHops(c *Ctx) {
 	n := 0
 	for _, b := range f.Blocks {
 		for _, in := range b.Instrs {
-			al, ok := in.(*ssa.Alloc)
-			if !ok || !al.Heap || !isNamed(al.Type(), core.ModulePath+"/result", "TracerouteHop") {
+			// every store of a hop into the result slice; the hop is a literal or comes out of a straight-line constructor
+			store, ok := in.(*ssa.Store)
+			if !ok {
 				continue
 			}
-			// where is it stored into hops?
-			var store *ssa.Store
-			for _, r := range *al.Referrers() {
-				if st, ok := r.(*ssa.Store); ok && st.Val == ssa.Value(al) {
-					store = st
-				}
-			}
-			if store == nil {
-				R.Fail("R05.4", fmt.Sprintf("%s#hop[%d]", fn, n), al.Pos(), fn, "hop literal is not stored into the result slice")
+			ia, ok := store.Addr.(*ssa.IndexAddr)
+			if !ok {
 				continue
 			}
+			if pt, ok := ia.Type().Underlying().(*types.Pointer); !ok || !isNamed(pt.Elem(), core.ModulePath+"/result", "TracerouteHop") {
+				continue
+			}
+			al := store.Val
 			paths, _ := core.EnumPaths(f, store.Block(), 2000)
 			for _, pa := range paths {
 				env := core.NewEnv(c.P, pa)
@@ -324,10 +322,12 @@ func checkToHops(c *Ctx) {
 					continue
 				}
 				idx := env.Term(store.Addr)
-				ttl := env.LoadField(al, "TTL", store, types.Typ[types.Int])
-				rtt := env.LoadField(al, "RTT", store, types.Typ[types.Float64])
-				ip := env.LoadField(al, "IPAddress", store, types.Typ[types.Invalid])
-				isd := env.LoadField(al, "IsDest", store, types.Typ[types.Bool])
+				fields, okF := hopFieldTerms(c, env, store.Val, store, 0)
+				if !okF {
+					R.Fail("R05.4", fmt.Sprintf("%s#hop[%d]", fn, n), store.Pos(), fn, "the stored hop is neither a literal nor the result of a straight-line constructor: undecided")
+					continue
+				}
+				ttl, rtt, ip, isd := fields["TTL"], fields["RTT"], fields["IPAddress"], fields["IsDest"]
 				key := fmt.Sprintf("%s#hop[%d]", fn, n)
 				// index term: hops[i]
 				if idx.Op != "index" {
@@ -366,4 +366,66 @@ func checkToHops(c *Ctx) {
 		}
 	}
 	R.Floor("R05.4:hop-literals", n, 2)
+}
+
+// hopFieldTerms evaluates the fields of a *result.TracerouteHop value at instruction `at`: a literal of the current function, or
+// the result of a straight-line constructor (one block) that returns a literal or another constructor's result, possibly after
+// assigning further fields; the constructor's parameters are replaced by the call's arguments.
+func hopFieldTerms(c *Ctx, env *core.Env, v ssa.Value, at ssa.Instruction, depth int) (map[string]*core.Term, bool) {
+	if depth > 3 {
+		return nil, false
+	}
+	names := []string{"TTL", "RTT", "IPAddress", "IsDest"}
+	typs := map[string]types.Type{"TTL": types.Typ[types.Int], "RTT": types.Typ[types.Float64], "IPAddress": types.Typ[types.Invalid], "IsDest": types.Typ[types.Bool]}
+	out := map[string]*core.Term{}
+	switch x := v.(type) {
+	case *ssa.Alloc:
+		if !isNamed(x.Type(), core.ModulePath+"/result", "TracerouteHop") {
+			return nil, false
+		}
+		for _, nme := range names {
+			out[nme] = env.LoadField(x, nme, at, typs[nme])
+		}
+		return out, true
+	case *ssa.Call:
+		k := x.Common().StaticCallee()
+		if k == nil || !core.InModule(k) || len(k.Blocks) == 0 || len(k.Blocks) > 2 || (len(k.Blocks) == 2 && k.Blocks[1].Comment != "recover") {
+			return nil, false
+		}
+		blk := k.Blocks[0]
+		ret, ok := blk.Instrs[len(blk.Instrs)-1].(*ssa.Return)
+		if !ok || len(ret.Results) != 1 {
+			return nil, false
+		}
+		kenv := core.NewEnv(c.P, core.NewPath(k, k.Blocks[:1]))
+		base, ok := hopFieldTerms(c, kenv, ret.Results[0], ret, depth+1)
+		if !ok {
+			return nil, false
+		}
+		// fields assigned on the constructor's own result after an inner constructor returned it
+		if _, isCall := ret.Results[0].(*ssa.Call); isCall {
+			for _, in := range blk.Instrs {
+				if st, ok := in.(*ssa.Store); ok {
+					if fa, ok := st.Addr.(*ssa.FieldAddr); ok && fa.X == ret.Results[0] {
+						base[core.FieldName(fa)] = kenv.Term(st.Val)
+					}
+				}
+			}
+		}
+		args := x.Common().Args
+		for nme, t := range base {
+			out[nme] = t.Subst(func(z *core.Term) *core.Term {
+				if z.Op == "param" {
+					for i, pa := range k.Params {
+						if pa.Name() == z.Name && i < len(args) {
+							return env.Term(args[i])
+						}
+					}
+				}
+				return nil
+			})
+		}
+		return out, true
+	}
+	return nil, false
 }
